@@ -103,12 +103,15 @@ func doAdd(obj *OpObj, target dom.ContainerBuilder) error {
 	if idx, isNum := obj.Path.LastSegment().IsNumeric(); isNum && parent.IsList() {
 		insertListItem(parent.(dom.ListBuilder), idx, obj.Value)
 		return nil
-	} else {
+	} else if parent.IsContainer() {
 		// If the target location specifies an object member that does not
 		//      already exist, a new member is added to the object.
 		// If the target location specifies an object member that does exist,
 		//      that member's value is replaced.
 		parent.(dom.ContainerBuilder).AddValue(string(obj.Path.LastSegment()), obj.Value)
+	} else {
+		// parent is either leaf, or it is a list and last segment is not an index
+		return fmt.Errorf("can't add '%s' to node at path: %s", obj.Path.LastSegment(), obj.Path.Parent().String())
 	}
 	return nil
 }
